@@ -454,6 +454,112 @@ def t_walrus_out(fn) -> bool:
     return ch
 
 
+_SIGS = None
+
+
+def _signatures():
+    """callable name -> positional parameter names (without self/cls), for
+    names whose definitions in the package all agree."""
+    global _SIGS
+    if _SIGS is None:
+        prog = Program(normalise=False)
+        table: dict[str, set[tuple]] = {}
+        for fi in prog.functions.values():
+            a = fi.node.args
+            if a.vararg or a.kwarg or a.posonlyargs:
+                params = None
+            else:
+                params = tuple(x.arg for x in a.args)
+                if fi.cls is not None and not fi.is_staticmethod():
+                    params = params[1:]
+            table.setdefault(fi.name, set()).add(params)
+        _SIGS = {k: next(iter(v)) for k, v in table.items()
+                 if len(v) == 1 and next(iter(v)) is not None
+                 and not k.startswith("__")}
+    return _SIGS
+
+
+def t_kw2pos(fn) -> bool:
+    """f(a, key=b) -> f(a, b) when `key` is the next positional parameter."""
+    sigs = _signatures()
+    ch = False
+    for n in ast.walk(fn):
+        if not isinstance(n, ast.Call):
+            continue
+        name = n.func.id if isinstance(n.func, ast.Name) else (
+            n.func.attr if isinstance(n.func, ast.Attribute) else None)
+        if name not in sigs or any(isinstance(a, ast.Starred) for a in n.args) \
+                or any(k.arg is None for k in n.keywords):
+            continue
+        params = sigs[name]
+        while n.keywords and len(n.args) < len(params) and \
+                n.keywords[0].arg == params[len(n.args)]:
+            n.args.append(n.keywords.pop(0).value)
+            ch = True
+    return ch
+
+
+def t_pos2kw(fn) -> bool:
+    """f(a, b) -> f(a, second=b): positional arguments after the first are
+    passed by keyword."""
+    sigs = _signatures()
+    ch = False
+    for n in ast.walk(fn):
+        if not isinstance(n, ast.Call):
+            continue
+        name = n.func.id if isinstance(n.func, ast.Name) else (
+            n.func.attr if isinstance(n.func, ast.Attribute) else None)
+        if name not in sigs or any(isinstance(a, ast.Starred) for a in n.args) \
+                or any(k.arg is None for k in n.keywords):
+            continue
+        params = sigs[name]
+        if len(n.args) < 2 or len(n.args) > len(params):
+            continue
+        extra = n.args[1:]
+        n.args = n.args[:1]
+        n.keywords = [ast.keyword(params[i + 1], v)
+                      for i, v in enumerate(extra)] + n.keywords
+        ch = True
+    return ch
+
+
+def t_extract_arg(fn) -> bool:
+    """x = f(g(y), ...) -> arg_tmp = g(y); x = f(arg_tmp, ...)."""
+    if any(isinstance(n, (ast.Yield, ast.YieldFrom)) for n in ast.walk(fn)):
+        pass
+    ch = False
+    k = [0]
+
+    def walk(stmts):
+        nonlocal ch
+        out = []
+        for st in stmts:
+            for f in ("body", "orelse", "finalbody"):
+                sub = getattr(st, f, None)
+                if isinstance(sub, list) and sub and isinstance(
+                        sub[0], ast.stmt):
+                    setattr(st, f, walk(sub))
+            for h in getattr(st, "handlers", []) or []:
+                h.body = walk(h.body)
+            v = getattr(st, "value", None)
+            if isinstance(st, (ast.Assign, ast.Return, ast.Expr)) and \
+                    isinstance(v, ast.Call) and v.args and isinstance(
+                    v.args[0], ast.Call) and isinstance(
+                    v.func, (ast.Name, ast.Attribute)) and not isinstance(
+                    v.args[0].func, ast.Lambda):
+                k[0] += 1
+                name = f"arg_tmp{k[0]}"
+                out.append(ast.Assign([ast.Name(name, ast.Store())],
+                                      v.args[0]))
+                v.args[0] = ast.Name(name, ast.Load())
+                ch = True
+            out.append(st)
+        return out
+
+    fn.body = walk(fn.body)
+    return ch
+
+
 TRANSFORMS = {
     "format": t_format,
     "rename": t_rename,
@@ -469,6 +575,9 @@ TRANSFORMS = {
     "classref": t_classref,
     "swapindep": t_swap_independent,
     "walrusout": t_walrus_out,
+    "kw2pos": t_kw2pos,
+    "pos2kw": t_pos2kw,
+    "extractarg": t_extract_arg,
 }
 
 
